@@ -12,7 +12,13 @@
     works on decorated trees ([dx]) and a *pass* ([y_pass]) maps a decorated tree to a decorated
     tree; a package-level constant declaration is visited three times (gta on the group, gta on
     the spec, cfg on the file), a constant declaration in a function twice, other expressions
-    once.  Definitions only. *)
+    once.  The pre-order part of cfg hands the declared type, or the type the previous visit found,
+    down every chain of binaryExpr / unaryExpr / parenExpr nodes ([prop], [pre_typ]); a visit that
+    ends with an error leaves the nodes visited so far decorated ([y_pass] returns the tree with its
+    status).  After the visits the closures of the comparisons that were not folded are generated
+    ([y_genrun]), and the printed operands are converted to their default type ([y_use]).
+    Outside the model ([Unm]): floating-point infinities and NaN, complex constants.
+    Definitions only. *)
 From Verif Require Export Const.Base.
 Open Scope Z_scope.
 
